@@ -314,5 +314,53 @@ def selectFirst (s : McBox α) : Nat × α :=
     else if -ga > st.2 ∧ aa > (0.0 : α) then (a, -ga)
     else st) (0, (0.0 : α))
 
+/-- `detail::maximumGainQuadratic2D(Qii, Qjj, Qij, gi, gj, minDetFrac)` (AnalyticProblems.h) -/
+def maxGain2D (Qii Qjj Qij gi gj minDetFrac : α) : α :=
+  let diagQ := Qii * Qjj
+  let detQ := diagQ - Qij * Qij
+  let r : α × α × α :=
+    if detQ ≤ minDetFrac * diagQ then
+      let Qii' := Qii + (1.e-6 : α)
+      let Qjj' := Qjj + (1.e-6 : α)
+      (Qii', Qjj', Qii' * Qjj' - Qij * Qij)
+    else (Qii, Qjj, detQ)
+  (gj * gj * r.1 - (2.0 : α) * gj * gi * Qij + gi * gi * r.2.1) / r.2.2
+
+/-- `selectWorkingSet`, second-order part for a first variable `i` (maximal violator): the partner `j`.
+Faithful to the C++ including (a) the call `maximumGainQuadratic2D(di, df, qif, di, gi, gf)`, whose last three
+arguments land in the parameters `(gi, gj, minDetFrac)`, and (b) the walk over the sparse row with a single
+cursor `b` that only advances when `pf` equals the index of the current entry (entries that are not in increasing
+index order are skipped and the default value is used instead). -/
+def selectSecond (s : McBox α) (i : Nat) : Nat :=
+  let vi := s.vars i
+  let ii := vi.i
+  let yi := (s.ex ii).y
+  let di := vi.diagonal
+  let gi := s.grad i
+  ((List.range s.activeEx).foldl (fun (st : Nat × α) a =>
+    let e := s.ex a
+    let row := s.M (s.c * (yi * s.P + vi.p) + e.y)
+    let d := row.dflt
+    let ka := s.kpos ii a
+    ((List.range s.P).foldl (fun (w : (Nat × α) × List (Nat × α)) pf =>
+      let f := e.var pf
+      let qr : α × List (Nat × α) :=
+        match w.2 with
+        | en :: tl => if pf = en.1 then (en.2 * ka, tl) else (d * ka, w.2)
+        | [] => (d * ka, [])
+      if f ≥ s.activeVar ∨ f = i then (w.1, qr.2) else
+      let af := s.alpha f
+      let gf := s.grad f
+      let df := (s.vars f).diagonal
+      if ¬(af > (0.0 : α) ∧ gf < (0.0 : α)) ∧ ¬(af < s.C ∧ gf > (0.0 : α)) then (w.1, qr.2) else
+      let gain := maxGain2D di df qr.1 di gi gf
+      if gain > w.1.2 then ((f, gain), qr.2) else (w.1, qr.2)) (st, row.entries)).1)
+    (i, gi * gi / di)).1
+
+/-- `selectWorkingSet(i, j)` with `i = j = 0` on entry: `(i, j, maxViolation)` -/
+def selectWorkingSet (s : McBox α) : Nat × Nat × α :=
+  let r := s.selectFirst
+  if r.2 == (0.0 : α) then (0, 0, r.2) else (r.1, s.selectSecond r.1, r.2)
+
 end McBox
 end SharkVerif.Mc
